@@ -1213,7 +1213,11 @@ func scenarios() []hx.Scenario {
 				}
 				// several free-running adder threads: preemption bounding grows
 				// factorially, one preemption must complete
-				add(sc, rm, false, 1, 2, sup == '3' || len(t) > 2)
+				if sup == '3' || len(t) > 2 {
+					add(sc, rm, true, 3, 4, true) // delay bounding for the larger ones
+				} else {
+					add(sc, rm, false, 1, 2, false)
+				}
 				sc.closerMgr, sc.closers, sc.grace, sc.close = true, "e", '-', '1'
 				add(sc, rcm, true, 3, 4, len(t) > 2)
 			}
